@@ -2,8 +2,11 @@
 
 Five kinds of cases:
   stack     a real multi-page camera TIFF (builders_tiff) opened as ImageStack, a selection program (frame slices
-            with step, integer indices, crop_by_pixels, tuple indices, from_dataset), export_tiff, raw re-read with
+            with step, integer indices, crop_by_pixels, tuple indices, from_dataset; nested: every op is relative to
+            the selection left by the ops before it), export_tiff, raw re-read with
             tifffile, reopen with ImageStack, export again.           model ops: c18.export (once / twice)
+            Exposure per page: constant, arbitrary, jittered (neighbouring pages 0 / 1 ns / tens of ns / a relative
+            1e-9..1e-3 apart: every page carries its OWN exposure), absent, legacy.
   confocal  a real Kymo / Scan (builders_confocal), optional derivation (frame slice, pixel crop, time slice,
             crop_by_distance, flip, position down-sampling), export_tiff(dtype, clip), raw re-read, reopen with
             ImageStack, export again.                                  model ops: c18.cast, c18.roundtrip
@@ -72,7 +75,11 @@ RULE = (
     "(grey / RGB / two-colour, uint8/uint16, 1-3 files, 1-10 pages, constant / variable / absent exposure, legacy "
     "Pylake<1.3.2 metadata, identity alignment matrices, pixel calibration) with every frame slice a:b:c over bounds in "
     "[-n-1, n+1] or None and steps None,1,2,3 (plus -1, 0) on n=5 and on a legacy and a variable-exposure stack of 4 pages, a sample of second-level programs, all "
-    "ROIs of a 3x4 image with bounds in [-h-1, h+1] or None, integer indices, tuple indices, from_dataset incl. empty; "
+    "ROIs of a 3x4 image with bounds in [-h-1, h+1] or None, ROIs of ROIs (first crop with origin 0 / not 0 on either axis, then every one-axis ROI with bounds in "
+    "[-m-1, m+1] or None of the CROPPED extent m, as crop_by_pixels and as tuple index, a sample of third-level crops), every slice of a 6-page stack "
+    "whose exposure jitters from page to page (0, +-1 ns, tens of ns, relative 1e-5, 1e-3) and jittered exposures around 1 us / 1 ms / 1 s, "
+    "integer indices, tuple indices, from_dataset incl. empty; random programs draw every op against the extent left by the ops before it and are "
+    "mostly valid (an emptied / refused selection is redrawn in 85% of the cases), random stacks have constant / arbitrary / jittered / absent / legacy exposure; "
     "each exported, re-read raw, reopened, exported again. confocal: kymographs and scans from generated info waves "
     "(both axis orders, 1-5 frames, dead time, lead-in) with photon counts below / at / above each dtype limit, all "
     "dtype x clip combinations, derived objects (frame slices, pixel crops incl. down to one pixel, time slices, "
@@ -80,7 +87,8 @@ RULE = (
     "count; every object exported by an untouched twin as its very first operation, by that twin again, and after all queries "
     "(image, num_frames, frame ranges, pixel size) were answered - all files judged by the same clauses on every page. mixin: export_tiff driven "
     "directly with values from the boundary set of every dtype (negative, fractional, 255/256, 65535/65536, 2^24+-1, "
-    "float32 max and beyond, subnormal, float32 ties) and timestamp ranges at 0, 1, 10^k, 2^63-1 and negative. datetime: "
+    "float32 max and beyond, subnormal, float32 ties) and timestamp ranges at 0, 1, 10^k, 2^63-1 and negative, multi-page exports whose "
+    "exposure differs from page to page by 0 / 1 ns / tens of ns / a relative 1e-9..1e-3. datetime: "
     "strings from the grammar, with leading zeros, final newline, and malformed ones. Non-trivial: a stack export with a "
     "non-empty selection program or a legacy / variable-exposure / multi-file stack; every confocal case (a complete "
     "export -> raw re-read -> reopen -> re-export x2 of a real object with a dtype cast); a mixin cast with a value "
@@ -1161,6 +1169,26 @@ def corpus_cases():
                 yield c
 
 
+JITTER_REL = [0, 0, 1e-9, 1e-8, 1e-7, 1e-6, 5e-6, 1e-5, 2e-5, 1e-4, 1e-3]
+
+
+def jittered(r, base, n, top):
+    """n exposure times (ns) in [1, top] scattered around `base` the way camera timestamps are: consecutive values equal,
+    1 ns apart, a few (tens of) ns apart, or apart by a relative 1e-9 .. 1e-3 of the exposure - every page's exposure is
+    its own, however little it differs from its neighbours'"""
+    out = []
+    for _ in range(n):
+        t = r.randint(0, 3)
+        if t == 0:
+            d = r.choice([0, 1, -1, 2, -2])
+        elif t == 1:
+            d = r.randint(-200, 200)
+        else:
+            d = int(base * r.choice(JITTER_REL)) * r.choice([1, -1]) + r.choice([0, 0, 1, -1])
+        out.append(min(max(base + d, 1), top))
+    return out
+
+
 def random_spec(r, max_pages=10):
     colour = r.choice(["grey", "grey", "rgb", "rgb", "two"])
     nfiles = r.choice([1, 1, 1, 2, 3])
@@ -1169,13 +1197,15 @@ def random_spec(r, max_pages=10):
     files = [b - a for a, b in zip([0] + cuts, cuts + [n])]
     h, w = r.randint(1, 5), r.randint(1, 6)
     period = r.choice([100_000_000, 33_333_333, 1_000, 12_345_678])
-    mode = r.choice(["const", "const", "var", "none", "legacy", "legacy"])
+    mode = r.choice(["const", "const", "var", "jitter", "none", "legacy", "legacy"])
     software = "Bluelake 2.5.1"
     frame_len = r.choice([period, period, period - r.randint(1, period // 2)])
     if mode == "const":
         exposure = r.randint(1, frame_len)
     elif mode == "var":
         exposure = [r.randint(1, frame_len) for _ in range(n)]
+    elif mode == "jitter":
+        exposure = jittered(r, r.choice([frame_len, frame_len // 2, r.randint(1, frame_len)]), n, frame_len)
     else:
         exposure = None
         if mode == "legacy":
@@ -1189,26 +1219,49 @@ def random_spec(r, max_pages=10):
     )
 
 
-def random_prog(r, n, h, w, length):
+def random_op(r, n, h, w):
+    """one selection op with bounds drawn against an extent of n pages, h rows, w columns"""
+    t = r.randint(0, 9)
+    b = lambda m: r.choice([None, None, 0, 1, -1, m, m - 1, -m, m + 1, r.randint(-m - 1, m + 1)])  # noqa: E731
+    if t <= 3:
+        return ["s", b(n), b(n), r.choice([None, None, 1, 2, 2, 3, r.randint(1, max(n, 1))])]
+    if t == 4:
+        return ["i", r.randint(-n - 1, n)]
+    # ROI bounds: a lower and an upper one per axis (None, from the front, from the back, at / one beyond the end), so that
+    # most ROIs keep some pixels; any pair of integers in [-m-1, m+1] now and then
+    lo = lambda m: r.choice([None, None, 0, 1, 1, -m, 1 - m, -1, m - 1, r.randint(-m - 1, m + 1)])  # noqa: E731
+    hi = lambda m: r.choice([None, None, m, m + 1, m - 1, -1, -1, 1, 2 - m, r.randint(-m - 1, m + 1)])  # noqa: E731
+    if t <= 6:
+        return ["c", lo(w), hi(w), lo(h), hi(h)]
+    if t <= 8:
+        items = [r.choice([[b(n), b(n), r.choice([None, None, 2])], r.randint(-n, n - 1)])]
+        if r.chance(0.8):
+            items.append([lo(h), hi(h)])
+            if r.chance(0.7):
+                items.append([lo(w), hi(w)])
+        return ["g"] + items
+    return ["s", b(n), b(n), r.choice([-1, 0, -2])]
+
+
+def random_prog(r, spec, length):
+    """a selection program whose every op is drawn against what the ops before it left over (pages, rows, columns of the
+    CURRENT selection, which is what pylake resolves None / negative / over-the-end bounds against), mostly valid: an op
+    that empties the selection or is refused is redrawn (up to 5 times) in 85% of the cases, so that second- and
+    third-level selections of selections are actually exported and not only refused at the first step"""
     prog = []
+    n, h, w = sum(spec["files"]), spec["h"], spec["w"]
     for _ in range(length):
-        t = r.randint(0, 9)
-        b = lambda m: r.choice([None, None, 0, 1, -1, m, m - 1, -m, r.randint(-m - 1, m + 1)])  # noqa: E731
-        if t <= 3:
-            prog.append(["s", b(n), b(n), r.choice([None, None, 1, 2, 2, 3, r.randint(1, max(n, 1))])])
-        elif t == 4:
-            prog.append(["i", r.randint(-n - 1, n)])
-        elif t <= 6:
-            prog.append(["c", b(w), b(w), b(h), b(h)])
-        elif t <= 8:
-            items = [r.choice([[b(n), b(n), r.choice([None, None, 2])], r.randint(-n, n - 1)])]
-            if r.chance(0.8):
-                items.append([b(h), b(h)])
-                if r.chance(0.7):
-                    items.append([b(w), b(w)])
-            prog.append(["g"] + items)
-        else:
-            prog.append(["s", b(n), b(n), r.choice([-1, 0, -2])])
+        try:
+            pages, rows, cols = reference_selection(spec, prog)
+            n, h, w = len(pages), len(rows), len(cols)
+        except Expect:
+            pass  # the program is already refused: whatever follows is never reached
+        keep_valid = r.chance(0.85)
+        for _attempt in range(5):
+            op = random_op(r, n, h, w)
+            if not keep_valid or reference_ok(spec, prog + [op]):
+                break
+        prog.append(op)
     return prog
 
 
@@ -1243,13 +1296,42 @@ def cases(tier, rng):
         second.append([o1, r2.choice(rois)])
     for prog in second:
         yield {"stream": "small-scope", "kind": "stack", "spec": base, "prog": prog}
+    # ROI of a ROI: the second crop's None / negative / over-the-end bounds refer to the EXTENT of the first crop, wherever
+    # its origin lies in the full image (origin 0 and not 0 on either axis, full and reduced extent); every one-axis ROI
+    # with bounds in [-m-1, m+1] or None of the cropped extent m, through crop_by_pixels and through a tuple index; a
+    # sample of third-level crops
+    r3 = rng.fork("stack-roi-roi")
+    firsts = [["c", 1, None, 1, None], ["c", 1, 3, None, None], ["c", None, None, 1, 3], ["c", 2, None, None, 2], ["c", None, 3, None, 2]]
+    for o1 in firsts:
+        _, rows1, cols1 = reference_selection(base, [o1])
+        inner = roi_alphabet(len(rows1), len(cols1))
+        if quick and o1 is not firsts[0]:
+            inner = r3.sample(inner, 40)
+        for o2 in inner:
+            yield {"stream": "small-scope", "kind": "stack", "spec": base, "prog": [o1, o2]}
+        as_tuple = lambda o: ["g", [None, None], [o[3], o[4]], [o[1], o[2]]]  # noqa: E731
+        for o2 in r3.sample(inner, 12 if quick else 60):
+            yield {"stream": "small-scope", "kind": "stack", "spec": base, "prog": [as_tuple(o1), as_tuple(o2)]}
+        for o2 in r3.sample([o for o in inner if reference_ok(base, [o1, o])], 6 if quick else 30):
+            _, rows2, cols2 = reference_selection(base, [o1, o2])
+            yield {"stream": "small-scope", "kind": "stack", "spec": base, "prog": [o1, o2, r3.choice(roi_alphabet(len(rows2), len(cols2)))]}
     # every slice of a legacy stack and of a variable-exposure RGB stack in two files (the written frame ranges of a
-    # legacy selection depend on the neighbours inside the selection)
+    # legacy selection depend on the neighbours inside the selection); and of a stack whose exposure jitters from page to
+    # page by 1 ns .. 1e-3 of the exposure (every page carries its own exposure, however close to its neighbours')
     leg = bt.make_spec(files=(4,), h=2, w=2, colour="grey", exposure=None, frame_len=40_000_000, software="Pylake v1.3.0", period=100_000_000)
     var = bt.make_spec(files=(2, 2), h=2, w=2, colour="rgb", exposure=[10_000_000, 20_000_000, 30_000_000, 25_000_000], gap=300_000_000)
     for spec in (leg, var):
         for o in slice_alphabet(4, [None, 2] if quick else [None, 1, 2, 3]):
             yield {"stream": "small-scope", "kind": "stack", "spec": spec, "prog": [o]}
+    e0 = 20_000_000
+    jit = bt.make_spec(files=(3, 3), h=2, w=2, colour="grey", exposure=[e0, e0 + 1, e0 - 1, e0 + 40, e0 + 199, e0 + 20_000], period=100_000_000)
+    yield {"stream": "small-scope", "kind": "stack", "spec": jit, "prog": []}
+    for o in slice_alphabet(6, [None, 2] if quick else [None, 1, 2, 3]):
+        yield {"stream": "small-scope", "kind": "stack", "spec": jit, "prog": [o]}
+    for e1, steps in ((1_000, (0, 1, -1, 3)), (1_000_000, (0, 1, -7, 9, 11)), (999_999_937, (0, -1, 1, 63, -9_000, 10_001))):
+        spec = bt.make_spec(files=(len(steps),), h=1, w=2, colour="rgb", exposure=[e1 + d for d in steps], period=2_000_000_000, dtype="uint8")
+        for prog in ([], [["s", 1, None, None]], [["s", None, None, 2]]):
+            yield {"stream": "small-scope", "kind": "stack", "spec": spec, "prog": prog}
     # from_dataset incl. the empty stack (RuntimeError; legacy: IndexError)
     for s0, s1, st in [(0, 0, 1), (2, 2, 1), (1, n, 2), (0, n, 3), (n - 1, n, 1)]:
         yield {"stream": "small-scope", "kind": "stack", "spec": base, "prog": [["z", s0, s1, st]]}
@@ -1266,7 +1348,9 @@ def cases(tier, rng):
         m = sum(spec["files"])
         progs = [[], [["s", None, None, 2]], [["s", 1, None, None]], [["s", 1, None, 2], ["c", 1, None, None, -1]], [["i", -1]],
                  [["g", [None, None, 2], [0, 1], [1, None]]], [["g", 0, [None, None], [None, -1]]], [["c", 1, None, None, None], ["s", None, None, 2]],
-                 [["s", None, None, 2], ["s", 1, None, None]], [["z", 0, 0, 1]], [["s", m, None, None]], [["c", 1, 1, None, None]]]
+                 [["s", None, None, 2], ["s", 1, None, None]], [["z", 0, 0, 1]], [["s", m, None, None]], [["c", 1, 1, None, None]],
+                 [["c", 1, None, None, None], ["c", None, -1, None, None]], [["c", 1, None, None, None], ["c", -1, None, None, None]],
+                 [["c", 1, None, None, None], ["c", None, 9, None, 9]], [["g", [None, None], [None, None], [1, None]], ["g", [None, None, 2], [None, None], [-2, -1]]]]
         for prog in progs:
             yield {"stream": "small-scope", "kind": "stack", "spec": spec, "prog": prog}
 
@@ -1292,6 +1376,13 @@ def cases(tier, rng):
         yield dict(mixin_case(["1"], "u8", False, dead=[[a, b]], exp=[[min(a, 2**62), min(a, 2**62) + 5]]), stream="small-scope")
     for a, b in [(-1, 5), (5, -1), (-10, -3), (2**63, 5), (5, 2**63), (2**64, 2**64 + 1)]:
         yield dict(mixin_case(["1"], "u8", False, dead=[[a, b]], exp=[[0, 5]]), stream="small-scope")
+    # per-page exposure: consecutive pages exposed equally long, 1 ns / tens of ns / a relative 1e-5 / 1e-3 apart, on exposures
+    # of 1 us .. 1 s - every page carries its own exposure
+    for e1 in (1_000, 1_000_000, 20_000_000, 10**9):
+        steps = [0, 1, -1, 40, 40, 199, -150, e1 // 100_000 + 2, e1 // 1000, 0]
+        dead = [[bt.T0 + j * 2 * 10**9, bt.T0 + (j + 1) * 2 * 10**9] for j in range(len(steps))]
+        exp = [[a, a + e1 + d] for (a, _), d in zip(dead, steps)]
+        yield dict(mixin_case(["1", "2"] * len(steps), "u8", False, shape=[len(steps), 1, 2, 1], dead=dead, exp=exp), stream="small-scope")
     yield dict(mixin_case(["1", "2", "3", "4", "5", "6"] * 2, "u16", False, shape=[2, 1, 2, 3]), stream="small-scope")
     yield dict(mixin_case(["1", "2", "3", "4", "5", "6"] * 2, "f32", False, shape=[3, 2, 2, 1]), stream="small-scope")
 
@@ -1337,10 +1428,19 @@ def cases(tier, rng):
             yield dict(confocal_case("scan", 3, 2, 3, 1, 1, 1, 2, fast, slow, 50, "f32", False, derive=d), stream="small-scope")
             if not quick:
                 yield dict(confocal_case("scan", 2, 3, 4, 2, 0, 2, 1, fast, slow, 50, "u8", True, derive=d, absent=()), stream="small-scope")
+    # a selection of a selection (bounds relative to the first one, whose origin is not the scan's)
+    nested = [[["cropxy", 1, None, 1, None], ["cropxy", None, -1, None, -1]], [["cropxy", 1, None, 1, None], ["cropxy", -2, None, -2, None]],
+              [["cropxy", 1, None, 1, None], ["cropxy", None, 9, None, 9]], [["tuple", None, None, 1, None, 1, None], ["tuple", 1, None, None, -1, None, -1]],
+              [["frames", 1, None], ["frames", None, -1]], [["frames", 1, None], ["frame", -1]]]
+    for fast, slow in ((0, 1), (1, 0)):
+        for d in nested:
+            yield dict(confocal_case("scan", 4, 4, 3, 1, 1, 1, 2, fast, slow, 50, "u16", False, derive=d), stream="small-scope")
     line = (3 * 2 + 2) * 12800
     kymo_derives = [[["lines", line, None]], [["lines", None, 2 * line]], [["lines", line, 3 * line]], [["lines", line, 2 * line]],
                     [["crop", "1/10", "3/10"]], [["crop", "0", "1/10"]], [["crop", "1/5", "1"]], [["flip"]], [["down", 2, "mean"]], [["down", 2, "sum"]],
                     [["down", 3, "mean"]], [["crop", "1/10", "3/10"], ["flip"]], [["lines", line, None], ["crop", "1/10", "3/10"]]]
+    kymo_derives += [[["lines", line, None], ["lines", line, None]], [["lines", line, None], ["lines", None, 2 * line]],
+                     [["crop", "1/10", "1"], ["crop", "1/10", "1"]]]
     for d in kymo_derives:
         yield dict(confocal_case("kymo", 4, None, 4, 2, 1, 2, 0, 0, None, 50, "f32", False, derive=d), stream="small-scope")
         yield dict(confocal_case("kymo", 4, None, 4, 2, 1, 2, 0, 1, None, 90, "u8", True, derive=d), stream="small-scope")
@@ -1354,7 +1454,7 @@ def cases(tier, rng):
         sub = r.fork(i)
         spec = random_spec(sub, max_pages=6 if quick else 10)
         n = sum(spec["files"])
-        prog = random_prog(sub, n, spec["h"], spec["w"], sub.choice([0, 1, 1, 2, 2, 3]))
+        prog = random_prog(sub, spec, sub.choice([0, 1, 1, 2, 2, 3]))
         yield {"stream": "random", "kind": "stack", "spec": spec, "prog": prog, "subseed": i}
     r = rng.fork("c18-random-confocal")
     N = 250 if quick else 4000
@@ -1387,6 +1487,8 @@ def cases(tier, rng):
             ders = [[], [], [["frames", b(frames), b(frames)]], [["frame", sub.randint(-frames, frames - 1)]],
                     [["cropxy", b(4), b(4), b(4), b(4)]], [["tuple", b(frames), b(frames), b(4), b(4), b(4), b(4)]]]
             c["derive"] = sub.choice(ders)
+            if c["derive"] and sub.chance(0.3):  # a selection of a selection
+                c["derive"] = c["derive"] + sub.choice(ders[2:])
             if sub.chance(0.3):
                 c["scan_count"] = frames  # the metadata record stores the true count (otherwise 0: reconstructed on demand)
         yield dict(c, stream="random", subseed=i)
@@ -1422,12 +1524,15 @@ def cases(tier, rng):
         vals = [v for v in vals if f64_exact(v)] or ["1"]
         shape = [1, 1, len(vals), 1]
         if len(vals) in (6, 12):
-            shape = sub.choice([[len(vals) // 3, 1, 1, 3], [len(vals) // 6, 1, 2, 3], [len(vals) // 2, 2, 1, 1]])
+            shape = sub.choice([[len(vals) // 3, 1, 1, 3], [len(vals) // 6, 1, 2, 3], [len(vals) // 2, 2, 1, 1], [len(vals), 1, 1, 1]])
         nf = shape[0]
         t0 = sub.choice(TS_BOUNDARY[:-3] + [sub.randint(0, 2**62)])
         per = sub.choice([1, 10, 1000, 10**9, sub.randint(1, 10**12)])
         dead = [[t0 + j * per, t0 + (j + 1) * per] for j in range(nf)]
-        exp = [[a, a + sub.randint(0, per)] for a, _ in dead]
+        if per > 1 and sub.chance(0.5):
+            exp = [[a, a + e] for (a, _), e in zip(dead, jittered(sub, sub.randint(1, per), nf, per))]
+        else:
+            exp = [[a, a + sub.randint(0, per)] for a, _ in dead]
         yield dict(mixin_case(vals, dtype, sub.chance(0.5), shape=shape, dead=dead, exp=exp, int_input=False), stream="random", subseed=i)
     # malformed / random DateTime strings
     r = rng.fork("c18-strings")
